@@ -16,6 +16,7 @@ from typing import (
 from typing.re import Pattern
 
 from .._utils import OrderedDict
+from ..exc import CoercionError
 from ..lang import ast
 from ..schema import (
     GraphQLAbstractType,
@@ -105,6 +106,18 @@ def collect_fields(
     return grouped_fields
 
 
+def _skip_selection_untyped(
+    node: Union[ast.Field, ast.InlineFragment, ast.FragmentSpread],
+    variables: Mapping[str, Any],
+) -> bool:
+    # This runs without validation or variable coercion, a directive can refer
+    # to a variable which has no value (yet): the selection is kept.
+    try:
+        return _skip_selection(node, variables)
+    except CoercionError:
+        return False
+
+
 def collect_fields_untyped(
     selections: Sequence[ast.Selection],
     fragments: Mapping[str, ast.FragmentDefinition],
@@ -118,7 +131,7 @@ def collect_fields_untyped(
 
     for selection in selections:
         if isinstance(selection, ast.Field):
-            if _skip_selection(selection, variables):
+            if _skip_selection_untyped(selection, variables):
                 continue
 
             key = selection.response_name
@@ -129,7 +142,7 @@ def collect_fields_untyped(
             grouped_fields[key].append(selection)
 
         elif isinstance(selection, ast.InlineFragment):
-            if _skip_selection(selection, variables):
+            if _skip_selection_untyped(selection, variables):
                 continue
 
             _merge(
@@ -144,7 +157,7 @@ def collect_fields_untyped(
 
         elif isinstance(selection, ast.FragmentSpread):
             name = selection.name.value
-            if _skip_selection(selection, variables) or name in _seen_fragments:
+            if _skip_selection_untyped(selection, variables) or name in _seen_fragments:
                 continue
 
             try:
